@@ -16,7 +16,9 @@ RULE = ("graphs as (node iterable, neighbour callback) built by stratified seede
         "non-trivial = at least 2 nodes and one edge inside the node set; distinct = distinct (node order, neighbour "
         "lists, hand-over kinds, parameters)")
 ASSUMPTIONS = ["node iterable yields distinct hashable labels",
-               "bridges is only called with totally ordered labels (its contract orders each pair with '<')",
+               "bridges is only called with mutually orderable labels: its documented contract orders each pair with '<', so "
+               "frozenset / mixed-type labels and a None label next to other types are outside its domain (the other "
+               "five functions are run on those labels too)",
                "damping in (0,1), tol in [1e-12,1e-3], max_iter >= 1, resolution > 0, k >= 0",
                "PageRank tolerance: |sum-1| <= 1e-9; when status is OPTIMAL the residual of the damped equation is at "
                "most n*tol in the max norm (DESIGN 2.5); a MAX_ITER answer is only checked for non-negativity and sum",
